@@ -749,10 +749,16 @@ def gen_softmax(ctx, rng, which):
         seed = _subseed(rng)
         cls = f'ndim={nd}' if which == 'Softmax' else f'ndim={nd}/eps:{epsk}'
         desc = {'shape': shape, 'spread': spread, 'sub': _subseed(rng)}
+        # history: the node is built at another temperature, used once, then annealed to tau (the documented usage)
+        anneal = which != 'Softmax' and i % 3 == 2
+        tau0 = float(np.round(tau * [4.0, 0.25, 10.0][(i // 3) % 3], 3)) if anneal else tau
         if which != 'Softmax':
             desc.update(tau=tau, eps=epsk, noise_seed=seed)
+            if anneal:
+                cls += '/annealed'
+                desc.update(built_with_tau=tau0)
 
-        def build(r_, shape=shape, spread=spread, tau=tau, epsk=epsk, seed=seed):
+        def build(r_, shape=shape, spread=spread, tau=tau, epsk=epsk, seed=seed, tau0=tau0, anneal=anneal):
             x0 = r_.standard_normal(shape) * spread
             if which == 'Softmax':
                 node = Softmax()
@@ -761,7 +767,11 @@ def gen_softmax(ctx, rng, which):
                     return node.forward(x)
                 hh = 1e-2
             else:
-                node = GumbelSoftmax(tau=tau, eps=(1e-9 if epsk == 'given' else None))
+                node = GumbelSoftmax(tau=tau0, eps=(1e-9 if epsk == 'given' else None))
+                if anneal:
+                    node.rng = np.random.default_rng(seed)
+                    node.backprop(np.ones(shape) * node.forward(x0))   # one step at the old temperature
+                    node.tau = tau
 
                 def f(x):
                     node.rng = np.random.default_rng(seed)
@@ -799,11 +809,20 @@ def gen_encoder(ctx, rng):
         cls = 'ndim=2' if nd == 2 else 'ndim>2'
         desc = {'shape': shape, 'estimator': est, 'levels': levels if lk == 'int' else levels.tolist(), 'tau': tau,
                 'noise_seed': seed, 'sub': _subseed(rng)}
+        anneal = est == 'GumbelSoftmax' and i % 3 == 1
+        tau0 = float(np.round(tau * [4.0, 0.2][(i // 3) % 2], 3)) if anneal else tau
+        if anneal:
+            cls += '/annealed'
+            desc.update(built_with_tau=tau0)
 
-        def build(r_, shape=shape, est=est, levels=levels, tau=tau, seed=seed):
+        def build(r_, shape=shape, est=est, levels=levels, tau=tau, seed=seed, tau0=tau0, anneal=anneal):
             x0 = r_.standard_normal(shape)
-            e = GumbelSoftmax(tau=tau) if est == 'GumbelSoftmax' else Softmax()
+            e = GumbelSoftmax(tau=tau0) if est == 'GumbelSoftmax' else Softmax()
             node = DiscreteEncoder(e, levels)
+            if anneal:
+                e.rng = np.random.default_rng(seed)
+                node.backprop(node.forward(x0))     # one step at the old temperature
+                node.est.tau = tau                  # anneal through the encoder's estimator, as the docstring describes
 
             def f(x):
                 if est == 'GumbelSoftmax':
@@ -831,9 +850,18 @@ def gen_activation(ctx, rng, name):
         shape = [(7,), (3, 4), (2, 3, 2), (1,)][i % 4]
         cls = f'params:{pk}'
         desc = {'a': a, 'x0': x0, 'y0': y0, 'shape': shape, 'sub': _subseed(rng)}
+        reparam = pk != 'default' and i % 4 == 3
+        if reparam:
+            cls += '/set-after-construction'
 
-        def build(r_, a=a, x0=x0, y0=y0, shape=shape):
-            node = klass(a=a, x0=x0, y0=y0)
+        def build(r_, a=a, x0=x0, y0=y0, shape=shape, reparam=reparam):
+            if reparam:
+                # history: built with other parameters, used once, then the public attributes are re-assigned
+                node = klass(a=2.5 * a, x0=x0 - 1.0, y0=y0 + 0.5)
+                node.backprop(node.forward(np.linspace(-1, 1, 5)))
+                node.a, node.x0, node.y0 = a, x0, y0
+            else:
+                node = klass(a=a, x0=x0, y0=y0)
             x = x0 + r_.uniform(-6, 6, shape) / a
             return Pointwise(node, x, 3e-3 / a)
         yield cls, desc, build
